@@ -10,6 +10,7 @@ pub mod c03;
 pub mod c04;
 pub mod c05;
 pub mod c09;
+pub mod c10;
 pub mod c18;
 
 pub fn run(prop: &str, ctx: &mut Ctx) -> bool {
@@ -20,6 +21,7 @@ pub fn run(prop: &str, ctx: &mut Ctx) -> bool {
         "C04" => c04::run(ctx),
         "C05" => c05::run(ctx),
         "C09" => c09::run(ctx),
+        "C10" => c10::run(ctx),
         "C18" => c18::run(ctx),
         _ => return false,
     }
@@ -34,6 +36,7 @@ pub fn replay(prop: &str, case: &Value) -> Option<Vec<Failure>> {
         "C04" => c04::replay(case),
         "C05" => c05::replay(case),
         "C09" => c09::replay(case),
+        "C10" => c10::replay(case),
         "C18" => c18::replay(case),
         _ => return None,
     })
